@@ -55,21 +55,70 @@ def SectionLayout.infoOnly (s : SectionLayout) : SectionLayout :=
     { s with endOfMessage := true, params := s.params.takeWhile (·.ty != .templateData) }
   else s
 
+/-- widths agree with what the reader/writer of the type does -/
+def Param.widthOK (p : Param) : Bool :=
+  match p.ty with
+  | .uint => true
+  | .int => p.nbits == 0 || 2 ≤ p.nbits
+  | .bool => p.nbits == 1
+  | .bin => true
+  | .bytes => p.nbits % 8 == 0
+  | .descriptors => p.nbits == 0
+  | .templateData => p.nbits == 0
+
+/-- a zero width ("rest of the section") only for the last parameter; at least one parameter -/
+def SectionLayout.zeroLast (s : SectionLayout) : Bool :=
+  match s.params.reverse with
+  | [] => false
+  | _ :: initRev => initRev.all (fun p => p.nbits != 0)
+
+/-- the section length, when present, comes first and is 24 bits unsigned -/
+def SectionLayout.lenFirst (s : SectionLayout) : Bool :=
+  !s.hasParam "section_length" ||
+    (match s.params with
+     | p :: _ => p.name == "section_length" && p.nbits == 24 && p.ty == .uint
+     | [] => false)
+
+/-- expected values are bytes of exactly the parameter's width -/
+def SectionLayout.expectedOK (s : SectionLayout) : Bool :=
+  s.params.all (fun p => match p.expected with
+    | none => true
+    | some e => p.ty == .bytes && 8 * e.length == p.nbits)
+
 /-- well-formedness of one layout, as the framing theorems need it -/
 def SectionLayout.WF (s : SectionLayout) : Bool :=
-  -- names are unique
   (s.params.map (·.name)).Nodup
-  -- bytes parameters are whole octets
-  && s.params.all (fun p => p.ty != .bytes || p.nbits % 8 == 0)
-  -- a zero width ("rest of section") is allowed only for the last parameter and needs a section length
-  && (match s.params.reverse with
-      | [] => false
-      | _ :: initRev => initRev.all (fun p => p.nbits != 0))
+  && s.params.all Param.widthOK
+  && s.zeroLast
+  -- a zero width needs a section length to be measured against
   && (s.params.all (fun p => p.nbits != 0) || s.hasParam "section_length")
-  -- the section length, when present, comes first and is 24 bits unsigned
-  && (!s.hasParam "section_length" ||
-        (match s.params with | p :: _ => p.name == "section_length" && p.nbits == 24 && p.ty == .uint | [] => false))
-  -- expected values fit their width
-  && s.params.all (fun p => match p.expected with | none => true | some e => p.ty == .bytes && 8 * e.length == p.nbits)
+  && s.lenFirst
+  && s.expectedOK
+
+/-- family level: section 0 (always configured with the default entry) starts with a 4-octet signature
+    followed by the 24-bit total `length`, has no section length, is not optional; no other parameter
+    of the family is registered under the name `length`; a final section is a lone 4-octet signature. -/
+def Layouts.sec0OK (L : Layouts) : Bool :=
+  match L.find? (fun e => e.index == 0 && e.edition == 0) with
+  | none => false
+  | some e0 =>
+    !e0.layout.optional && !e0.layout.hasParam "section_length" &&
+    (match e0.layout.params with
+     | p0 :: p1 :: _ =>
+       p0.ty == .bytes && p0.nbits == 32 && p0.expected.isSome &&
+       p1.name == "length" && p1.ty == .uint && p1.nbits == 24 && p1.asProperty
+     | _ => false)
+
+def Layouts.lengthOnce (L : Layouts) : Bool :=
+  L.all fun e => e.index == 0 || e.layout.params.all fun p => !(p.name == "length" && p.asProperty)
+
+def Layouts.endOK (L : Layouts) : Bool :=
+  L.all fun e => !e.layout.endOfMessage ||
+    (match e.layout.params with
+     | [p] => p.ty == .bytes && p.nbits == 32 && p.expected.isSome
+     | _ => false)
+
+def Layouts.WF (L : Layouts) : Bool :=
+  L.all (fun e => e.layout.WF) && L.sec0OK && L.lengthOnce && L.endOK
 
 end Bufr
